@@ -1010,8 +1010,12 @@ def matrix_inverse_pth_root_eigh(
   if padding_start is not None:
     e *= jnp.flip(ix)
   mm = functools.partial(jnp.matmul, precision=precision)
-  inv_e = jnp.where(e == 0.0, 0.0,
-                    jnp.power(jnp.maximum(e, ridge_epsilon), alpha))
+  # With ridge_epsilon == 0 a singular input leaves non-positive eigenvalues
+  # (exact zeros or round-off); their inverse power is not finite. Treat them
+  # like the zeroed-out padding eigenvalues.
+  clamped_e = jnp.maximum(e, ridge_epsilon)
+  inv_e = jnp.where((e == 0.0) | (clamped_e <= 0.0), 0.0,
+                    jnp.power(clamped_e, alpha))
   val = mm(mm(u, jnp.diag(inv_e)), u.T)
   root = u * jnp.sqrt(inv_e)
   val = mm(root, root.T)
@@ -1080,8 +1084,11 @@ def _low_rank_root(
   if padding_start is not None:
     eig_error *= jnp.flip(ix)
   error = jnp.max(jnp.abs(eig_error))
-  inv_e = jnp.where(e == 0.0, 0.0,
-                    jnp.power(jnp.maximum(e, ridge_epsilon), alpha))
+  # See matrix_inverse_pth_root_eigh: no ridge, no finite inverse power for
+  # non-positive eigenvalues.
+  clamped_e = jnp.maximum(e, ridge_epsilon)
+  inv_e = jnp.where((e == 0.0) | (clamped_e <= 0.0), 0.0,
+                    jnp.power(clamped_e, alpha))
   assert abs(compression_rank) <= matrix_size
   d = matrix_size
   # If padding_start < d, then we should have (d - padding_start)
